@@ -10,8 +10,8 @@ def alloc_cases(tier, seed, small_depth=None):
     flavours = ("asan",) if tier == "quick" else ("asan", "asan-ndebug")
     for fl in flavours:
         exe = vlib.build_engine("alloc", SRC, flavour=fl)
-        nproc = 16 if tier == "quick" else 48
-        nh, ops = (12, 2500) if tier == "quick" else (60, 5000)
+        nproc = 16 if tier == "quick" else 32
+        nh, ops = (12, 2500) if tier == "quick" else (40, 5000)
         for k in range(nproc):
             cases.append(([exe, "hist", str(nh), str(ops), str(seed * 1000 + k)], "%s/hist/%d" % (fl, k)))
         # small arena (2 KiB, 32 leaves): random histories + exhaustive enumeration of short sequences
